@@ -151,6 +151,13 @@ StringDictionaryHASHRPF::StringDictionaryHASHRPF(IteratorDictString *it, uint,
 unsigned long StringDictionaryHASHRPF::locate(uchar *str, uint strLen) {
   unsigned long id = NORESULT;
 
+  // A byte beyond the alphabet of the dictionary cannot occur in a member, and
+  // the smallest such value is the end marker of the compressed strings: it
+  // must not be compared against them
+  for (uint i = 0; i < strLen; i++)
+    if (str[i] >= rp->maxchar)
+      return id;
+
   size_t hval = bitwisehash(str, strLen, hash->tsize);
   size_t next;
 
